@@ -35,6 +35,8 @@ func runC15(c *Check, tier string) {
 	shareRule(c, "R15i", "no goroutine started inside a worker slot runs commands: the dependency re-runs of minimal mode are sequential (same obligation as R03g)", 1, "R03g", func(sub *Check) { ruleNoSpawnInsideSlot(sub, "R03g") }, nil)
 	// a restore that failed half way is reported as failed
 	ruleDeferredResultNotClobbered(c, "R15o", "output", "output/handlers", "caching", "caching/backends", "execution", "loading", "locking")
+	// round 8: the dependency loader holds at most one dependency lock at a time (minimal mode must not hang where mode all succeeds)
+	ruleNoDeferredUnlockInLoop(c, "R15p", "execution", "caching", "output", "maps")
 }
 
 func modeAtom(c *Check, op string) func(a engine.Atom) bool {
@@ -75,6 +77,38 @@ func ruleR15a(c *Check, g *gateInfo) {
 		found = true
 		reach, _ := engine.PathExists(g.Fn, nil, engine.IsInstr(h), engine.PathQuery{CutInstr: isStore})
 		c.Require(!reach, "R15a", "minimal-hit-propagates-output-hash/"+gname, "the minimal-mode hit assigns Target.OutputHash from the looked-up result on every path", "in minimal mode a cache hit can return without propagating the stored output hash: dependants cannot compute their keys (or key on a stale digest)", c.P.InstrPos(h))
+	}
+	if !found {
+		// the hit handling inside a bool helper: its `true` answers are the hits; the one that is specific to
+		// load_outputs == minimal assigns the output hash from the looked-up result (a parameter there)
+		lo := c.P.Func("output", "Registry", "LoadOutputs")
+		for _, hs := range gateHelpersCalling(c, g.Fn, lo) {
+			res := hs.Helper.Signature.Results()
+			if res.Len() != 1 || res.At(0).Type().String() != "bool" {
+				continue
+			}
+			stores := map[ssa.Instruction]bool{}
+			engine.WithCtx([]*ssa.Call{hs.Call}, func() {
+				for _, b := range hs.Helper.Blocks {
+					for _, in := range b.Instrs {
+						if isStore(in) {
+							stores[in] = true
+						}
+					}
+				}
+			})
+			for _, r := range engine.Returns(hs.Helper) {
+				if !mayBeTrueReturn(r) {
+					continue
+				}
+				if reach, _ := engine.PathExists(hs.Helper, nil, engine.IsInstr(r), engine.PathQuery{CutEdge: engine.CutEdgesWhere(modeAtom(c, "eq"))}); reach {
+					continue
+				}
+				found = true
+				reach, _ := engine.PathExists(hs.Helper, nil, engine.IsInstr(r), engine.PathQuery{CutInstr: func(in ssa.Instruction) bool { return stores[in] }})
+				c.Require(!reach, "R15a", "minimal-hit-propagates-output-hash/"+gname, "the minimal-mode hit (in "+c.P.FuncName(hs.Helper)+") assigns Target.OutputHash from the looked-up result on every path", "in minimal mode a cache hit can return without propagating the stored output hash: dependants cannot compute their keys (or key on a stale digest)", c.P.InstrPos(r))
+			}
+		}
 	}
 	if !found {
 		c.Bad("R15a", "minimal-hit-propagates-output-hash/"+gname, "no hit return is specific to load_outputs == minimal: minimal mode would load outputs like mode all (or the mode test left the hit branch)", c.P.Pos(g.Fn.Pos()))
